@@ -35,9 +35,13 @@ Definition case_eqb (m e : uiel * list placement_error) := u_eqb (fst m) (fst e)
 TRUSTED = ["harness uigen + xml.etree reading of the .ui; the classification of a class into widget/layout/spacer/action/menu/other is the class graph's (C17)",
            "names of objects without id are predicted by a Python port of the naming rule (itself the subject of C10)"]
 
-WIDGETS = ["QWidget", "QGroupBox", "QFrame", "QPushButton", "QLabel", "QToolBar", "QMenuBar", "QTabWidget", "QScrollArea", "QDialog", "QToolButton"]
-LAYOUTS = ["QVBoxLayout", "QHBoxLayout", "QGridLayout", "QFormLayout"]
-OTHERS = ["QButtonGroup", "QTimer", "QObject"]
+# My* are classes DERIVED from a class of the kind (what a custom component is to the translator): data/verif_kinds_metatypes.json
+WIDGETS = ["QWidget", "QGroupBox", "QFrame", "QPushButton", "QLabel", "QToolBar", "QMenuBar", "QTabWidget", "QScrollArea", "QDialog", "QToolButton", "MyFrame"]
+LAYOUTS = ["QVBoxLayout", "QHBoxLayout", "QGridLayout", "QFormLayout", "MyBoxLayout", "MyGrid"]
+OTHERS = ["QButtonGroup", "QTimer", "QObject", "MyTimer"]
+MENUS = ["QMenu", "QMenu", "MyMenu"]
+ACTIONS = ["QAction", "QAction", "QAction", "MyAction"]
+EXTRA = C.VERIF + "/data/verif_kinds_metatypes.json"
 KCOQ = {"widget": "KWidget", "layout": "KLayout", "spacer": "KSpacer", "action": "KAction", "separator": "KSeparator", "menu": "KMenu", "other": "KOther"}
 
 
@@ -76,7 +80,7 @@ class TreeGen:
                 for _ in range(r.choice([0, 0, 1, 2, 3, 4])):
                     o["children"].append(self.gen("w", d + 1))
         elif kind == "menu":
-            o = self.node(kind, "QMenu")
+            o = self.node(kind, r.choice(MENUS))
             for _ in range(r.choice([0, 1, 2, 3, 4])):
                 k2 = r.choice(["action", "action", "separator", "menu"]) if d + 1 < self.max_depth else r.choice(["action", "separator"])
                 o["children"].append(self.leaflike(k2, d + 1))
@@ -91,19 +95,19 @@ class TreeGen:
     def leaflike(self, kind, d):
         r = self.rng
         if kind == "menu":
-            o = self.node("menu", "QMenu")
+            o = self.node("menu", r.choice(MENUS))
             for _ in range(r.choice([0, 1, 2])):
                 o["children"].append(self.leaflike(r.choice(["action", "separator"]), d + 1))
             return o
         if kind == "action":
-            o = self.node("action", "QAction")
+            o = self.node("action", r.choice(ACTIONS))
             v = r.random()
             if v < 0.1:
                 o["props"] = ["separator: false"]                           # not a separator: the value is false
             elif v < 0.2:
                 o["props"] = ["separator: true", "checkable: true"]          # not a static separator: another property
         elif kind == "separator":
-            o = self.node("separator", "QAction")
+            o = self.node("separator", r.choice(ACTIONS))
             o["props"] = ["separator: true"]
         elif kind == "spacer":
             o = self.node("spacer", "QSpacerItem")
@@ -311,6 +315,8 @@ def run(ctx):
     ctx.proof_leg(TARGETS, PINS, k_targets=K_TARGETS)
     vh = ctx.need_harness()
     rng = ctx.rng
+    import os
+    os.environ["VERIF_EXTRA_METATYPES"] = EXTRA
     n = 3000 if ctx.tier == "thorough" else 600
     trees = []
     for i in range(n):
